@@ -918,18 +918,27 @@ func (c *Ctx) rulesC14(a *coreAnchors, la *LockAnalysis) {
 			c.check(allPathsAvoidingReach(setSites[0], fin[0], accStore), "C14.time", "accepted path: no way around the TimeAfter re-read", accStore.Pos(), "a path from setActiveStates reaches TransitionFinals without re-reading the time")
 		}
 		good2 := false
+		extraCanc := ""
 		if cancStore != nil {
 			for _, g := range guardsOf(cancStore.Block()) {
-				if a.notCheck().Match(g) {
+				switch {
+				case a.notCheck().Match(g):
 					good2 = true
+				case gCmpConst("", a.tResult, a.vCanceled, true, nil).Match(g), gCmpConst("", a.tResult, a.vCanceled, false, nil).Match(g):
+					// the else-branch of "result != Canceled"
+				default:
+					extraCanc = guardStrings([]Guard{g})[0]
 				}
 			}
+		}
+		if extraCanc != "" {
+			good2 = false
 		}
 		pos = f.Pos()
 		if cancStore != nil {
 			pos = cancStore.Pos()
 		}
-		c.check(good2, "C14.time", "canceled path: TimeAfter re-read (no change reported)", pos, "a canceled non-check transition must report the current machine time as TimeAfter")
+		c.check(good2, "C14.time", "canceled path: TimeAfter re-read (no change reported)", pos, "a canceled non-check transition must report the current machine time as TimeAfter, whatever canceled it (relations or a handler); extra condition: "+extraCanc)
 	}
 	// timeLast <- &t.TimeAfter in processQueue after emitEvents
 	if fTL != nil && len(ee) == 1 {
